@@ -1,6 +1,6 @@
 // codec: generators + real fix / fix/encoding calls for C01 C02 C03 C11 C17 C18.
 //
-//	codec -mode enc|rt|dmg|fuzz|vbt -seed S -n N -out DIR [-depth D]
+//	codec -mode enc|rt|dmg|fuzz|vbt|val -seed S -n N -out DIR [-depth D]
 //
 // Writes DIR/ops.txt (one driver op per line), DIR/exp.txt (what the driver must answer:
 // "corr …" = the implementation's own result, "spec …" = a spec predicate must pass on the
@@ -836,6 +836,8 @@ func main() {
 		runFuzz(r, o)
 	case "vbt":
 		runVBT(r, o)
+	case "val":
+		runVal(r, o)
 	default:
 		fmt.Fprintln(os.Stderr, "unknown mode")
 		os.Exit(2)
